@@ -67,6 +67,8 @@ def expand(spec):
         else:  # sorted
             x = off + scale * i / max(1, n)
         out.append(x)
+    if spec.get('int_first') and out and abs(out[0]) < 2.0 ** 62:
+        out[0] = int(out[0])      # a series that starts with an int (a counter, a parsed "0") and goes on with floats
     return out
 
 
@@ -289,7 +291,8 @@ def case_gen(draw, long_max):
     else:
         data = {'kind': 'long', 'n': draw(st.sampled_from([10, 100, 300, 1100, long_max])), 'off_m': draw(st.sampled_from([0.0, 1.0, -3.0, 7.25])),
                 'off_e': draw(st.integers(-6, 9)), 'scale_e': draw(st.integers(-13, 6)),
-                'shape': draw(st.sampled_from(['uniform', 'two-point', 'sorted', 'constant', 'alternating'])), 'seed': draw(st.integers(0, 10 ** 6))}
+                'shape': draw(st.sampled_from(['uniform', 'two-point', 'sorted', 'constant', 'alternating'])), 'seed': draw(st.integers(0, 10 ** 6)),
+                'int_first': draw(st.integers(0, 3)) == 0}
     mode = draw(st.sampled_from(['plain', 'store', 'grouped', 'windows']))
     case = {'data': data, 'op': draw(st.sampled_from(OPS)), 'km': draw(st.sampled_from([False, False, True, 'dict'])), 'mode': mode}
     if case['op'] in ('sum', 'mean', 'min', 'max') and kind == 'short' and mode != 'grouped' and draw(st.integers(0, 7)) == 0:
